@@ -307,6 +307,9 @@ theorem apply_roles {s s' : St} {o : Op} (h : Roles s) (e : apply s o = .ok s') 
   | fraud au ra hh rev p rw => exact fraud_roles h e
   | obsolete au vs => exact markObsolete_roles h e
   | punish au a rw => exact h.frame (punish_frame h.core.uniq (punishProposal_ok e).2)
+  | transferOwner sg ra' no =>
+    obtain ⟨r, hg, _, _, _, rfl⟩ := transferOwner_ok e
+    exact h.frame (Frame.of_setRa (r0 := r) h.core.uniq hg (by rfl) (by rfl) (by rfl))
   | begin_ dt => simp only [apply] at e; injection e with e; subst e; exact beginBlock_roles h
   | end_ f => simp only [apply] at e; injection e with e; subst e; exact h.frame (endBlock_frame h.core.uniq)
 
